@@ -75,7 +75,8 @@ def main(argv=None):
         res.merge(mod.run(ctx))
         wall = time.time() - t0
         runner.write_evidence(pid, args.tier, seed, mod.LEVEL, res, mod.RULE, mod.ASSUMPTIONS, wall,
-                              exhaustive=getattr(mod, "EXHAUSTIVE", False) and not res.budget_exhausted)
+                              exhaustive=getattr(mod, "EXHAUSTIVE", False) is True and not res.budget_exhausted,
+                              extra={"exhaustive_streams": getattr(mod, "EXHAUSTIVE_STREAMS", None)} if getattr(mod, "EXHAUSTIVE_STREAMS", None) else None)
         for line in F.lines:
             print(line)
         for fid, n in sorted(res.kf.items()):
